@@ -5,6 +5,27 @@ reset(choice node), load / merge of files assigning 0-3 members in every order (
 currently invisible choice).  Oracle in every state, for every choice: the structural invariant of the statement,
 the reference selection (mck/refsem.py with the user's pick tracked along the history), and the header / CMake / JSON /
 sdkconfig outputs defining exactly that member.
+
+Two instance disciplines are explored (the statement speaks of "every configuration", which includes configurations
+reached on an instance that a front end keeps alive and evaluates between the user's edits):
+
+* fresh  -- the history is applied to a new instance and the configuration is evaluated once, at the end;
+* live   -- ONE instance, and the configuration is EVALUATED BETWEEN operations (so memoised visibilities, values and
+            selections exist when the next operation arrives).  Dimensions:
+              - how it is evaluated (READS): "values" (every option's value, as the output writers do -- never asks a
+                choice for its selection), "full" (values, visibilities, assignable + every choice's selection),
+                "shown" (what a menu front end shows: visibilities, and values / selections of visible items only),
+                thorough also "choices" (only the choices) and "outputs" (the real header/CMake/JSON/sdkconfig writers);
+              - when: (1) a second explicit-state search per program and READS kind in which the configuration is
+                evaluated before the first and after every operation; its states are merged on (user values, user
+                selections, the CONTENT of every memo cell) -- sound, because that is everything an instance carries,
+                so a transition into a seen state (hide -> show again, pick -> reset ...) is known to behave like it;
+                (2) for the first history reaching each state of the fresh search: every non-empty subset of the
+                evaluation points {initially, after op 1, ..., after op n-1}.
+  The "hidden" families give the live search something to bite on: a choice hidden in every documented way (choice
+  `depends on`, prompt `if`, enclosing `if`, enclosing menu `depends on` / `visible if`, `if` inside a menu, two
+  levels) by A / !A / A && B / a member of another choice, for plain, defaulted, named, twice-defined, nested and paired
+  choices and members with their own conditions -- evaluate while hidden, show, evaluate, pick, evaluate.
 """
 
 from __future__ import annotations
@@ -23,13 +44,26 @@ LEVEL = "model_checking"
 RULE = (
     "explicit-state BFS per program (families: 2-3 members with prompt conditions in {none,A,!A,B} x choice prompt/depends "
     "conditions x 0-2 conditional defaults; named/unnamed, nested, named choice defined twice, if/menu inside the choice, "
-    "promptless member) over set/reset/load/merge operations; states merged on (user values, user selections). "
+    "promptless member; 'hidden': every way of hiding a choice {choice depends on, prompt if, enclosing if, menu depends on, "
+    "menu visible if, if inside menu, menu inside if, two levels} x condition {A, !A; thorough also A&&B, A||B; a member of "
+    "another choice} x shape {plain, conditional defaults, named, members with own condition, named twice (both / first "
+    "definition hidden), nested (outer / inner hidden), pair of choices behind one switch}) over set/reset/load/merge "
+    "operations; states merged on (user values, user selections). Every state is evaluated on a fresh instance; the first "
+    "history reaching it also on one live instance evaluated at every non-empty subset of the points {initially, after op "
+    "1..n-1}, per READS kind {values, full, shown; thorough + choices, outputs}. A second BFS per program and READS kind "
+    "(alphabet without the redundant load files) evaluates before the first and after every operation and merges states "
+    "on (user values, user selections, content of every memo cell). "
     "distinct_nontrivial = distinct (program, user state) pairs in which some choice has a hidden member, a user pick, or is invisible."
 )
 ASSUMPTIONS = [
     "the user's pick is the last member set to y since the last reset / replacing load (mck/refsem.RefState)",
     "Symbol.unset_value on members is not in the alphabet (UI-level reset is what users have)",
     "loaded files carry no default-marked entries (C08 owns those)",
+    "an instance carries no state beyond user values, user selections and the memo cells (_cached_*, _write_to_conf) "
+    "that the live search merges on; 'evaluating' the configuration means reading through the public properties "
+    "(str_value / visibility / assignable / Choice.selection) or running the real output writers",
+    "a named choice defined twice is only generated with all definitions hidden alike or with the single prompted one hidden "
+    "(what per-definition `depends on` means for the members of the other definition is not documented)",
 ]
 
 
@@ -38,6 +72,90 @@ def A(name):
 
 
 COND = {"none": None, "A": S("A"), "!A": Not(S("A")), "B": S("B")}
+
+# --------------------------------------------------------------------------------------------------
+# hidden choices: every documented way of making a choice invisible through something OUTSIDE its members
+# --------------------------------------------------------------------------------------------------
+HIDE_KINDS = ("depends", "prompt", "if", "menu_dep", "menu_vis", "menu_if", "if_menu")
+HCOND = {"A": S("A"), "!A": Not(S("A")), "A&&B": And(S("A"), S("B")), "A||B": Or(S("A"), S("B")), "P2": S("P2"), "!P2": Not(S("P2"))}
+
+
+def hide(kind: str, cond: tuple, ch: Choice):
+    """returns the node to put in place of `ch` so that `ch` is visible only if `cond` holds"""
+    if kind == "depends":
+        ch.depends.append(cond)
+        return ch
+    if kind == "prompt":
+        ch.prompt_cond = cond if ch.prompt_cond is None else And(ch.prompt_cond, cond)
+        return ch
+    if kind == "if":
+        return If(cond=cond, children=[ch])
+    if kind == "menu_dep":
+        return Menu(title="m", depends=[cond], children=[ch])
+    if kind == "menu_vis":
+        return Menu(title="m", visible_if=[cond], children=[ch])
+    if kind == "menu_if":
+        return Menu(title="m", children=[If(cond=cond, children=[ch])])
+    if kind == "if_menu":
+        return If(cond=cond, children=[Menu(title="m", children=[ch])])
+    raise ValueError(kind)
+
+
+def M(i, **kw):
+    return Cfg(f"M{i}", "bool", prompt=f"m{i}", **kw)
+
+
+def hidden_shapes(kind: str, cond: tuple) -> Iterator[Tuple[str, List[Any], List[str]]]:
+    """(shape, nodes, extra condition symbols) -- `kind`/`cond` hide the choice(s) of the shape"""
+    yield "plain", [hide(kind, cond, Choice(prompt="c", children=[M(1), M(2)]))], []
+    yield "dfl", [hide(kind, cond, Choice(prompt="c", defaults=[("M3", S("F")), ("M2", None)], children=[M(1), M(2), M(3)]))], ["F"]
+    yield "named", [hide(kind, cond, Choice(name="CH", prompt="c", defaults=[("M2", None)], children=[M(1), M(2)]))], []
+    yield "mcond", [hide(kind, cond, Choice(prompt="c", children=[M(1, prompt_cond=S("G")), M(2)]))], ["G"]
+    # named choice defined at two places: both definitions hidden alike / only the one that has the prompt
+    yield "twice_both", [
+        hide(kind, cond, Choice(name="CH", prompt="c", children=[M(1)])),
+        Cfg("MID", "bool"),
+        hide(kind, cond, Choice(name="CH", prompt=None, defaults=[("M3", None)], children=[M(2), M(3)])),
+    ], []
+    yield "twice_first", [
+        hide(kind, cond, Choice(name="CH", prompt="c", children=[M(1), M(2)])),
+        Cfg("MID", "bool"),
+        Choice(name="CH", prompt=None, children=[M(3)]),
+    ], []
+    inner = Choice(prompt="inner", children=[Cfg("I1", "bool", prompt="i1"), Cfg("I2", "bool", prompt="i2")])
+    yield "nested_outer", [hide(kind, cond, Choice(prompt="outer", children=[M(1), inner]))], []
+    if kind in ("depends", "prompt", "if"):
+        inner = Choice(prompt="inner", children=[Cfg("I1", "bool", prompt="i1"), Cfg("I2", "bool", prompt="i2")])
+        yield "nested_inner", [Choice(prompt="outer", children=[M(1), hide(kind, cond, inner)])], []
+    # two choices behind the same switch (the second one always through an `if` inside a menu)
+    yield "pair", [
+        hide(kind, cond, Choice(name="CH", prompt="c", defaults=[("M2", None)], children=[M(1), M(2)])),
+        Menu(title="other", children=[If(cond=cond, children=[Choice(prompt="d", children=[Cfg("N1", "bool", prompt="n1"), Cfg("N2", "bool", prompt="n2")])])]),
+    ], []
+
+
+def hidden_programs(tier: str) -> Iterator[Tuple[str, Program]]:
+    conds = ("A", "!A") if tier == "quick" else ("A", "!A", "A&&B", "A||B")
+    for kind, cn in itertools.product(HIDE_KINDS, conds):
+        for shape, nodes, extra in hidden_shapes(kind, HCOND[cn]):
+            if tier == "quick" and cn == "!A" and kind not in ("depends", "if"):
+                continue  # quick: "hidden unless switched off" only for the two commonest constructs
+            syms = sorted(set(kgen.expr_syms(HCOND[cn])) | set(extra))
+            yield ("hidden_" + shape, Program(children=[A(n) for n in syms] + nodes))
+    # the switch is a member of another choice (a pick there shows / hides this one); hidden choice first so that the
+    # load files address its members
+    for kind, cn in itertools.product(HIDE_KINDS, ("P2", "!P2")):
+        if tier == "quick" and cn == "!P2" and kind not in ("depends", "if"):
+            continue
+        yield ("hidden_by_member", Program(children=[
+            hide(kind, HCOND[cn], Choice(prompt="c", defaults=[("M2", None)], children=[M(1), M(2)])),
+            Choice(prompt="p", children=[Cfg("P1", "bool", prompt="p1"), Cfg("P2", "bool", prompt="p2")]),
+        ]))
+    # two levels: the choice is visible iff A && B, each through a different construct
+    for k1, k2 in (("if", "depends"), ("menu_dep", "prompt"), ("menu_vis", "if"), ("if", "if")):
+        ch = Choice(prompt="c", defaults=[("M2", None)], children=[M(1), M(2)])
+        node = hide(k1, S("A"), hide(k2, S("B"), ch))
+        yield ("hidden_two_levels", Program(children=[A("A"), A("B"), node]))
 
 
 def programs(tier: str) -> Iterator[Tuple[str, Program]]:
@@ -91,6 +209,8 @@ def programs(tier: str) -> Iterator[Tuple[str, Program]]:
         menu = Menu(title="m", children=[Choice(prompt="c", children=[Cfg("M1", "bool", prompt="m1"), Cfg("M2", "bool", prompt="m2")])])
         (menu.depends if w == "depends" else menu.visible_if).append(S("A"))
         yield ("in_menu_" + w, Program(children=[A("A"), menu]))
+    # choices hidden from outside, in every way
+    yield from hidden_programs(tier)
 
 
 def load_files(members: List[str], others: List[str]) -> List[str]:
@@ -111,12 +231,85 @@ def load_files(members: List[str], others: List[str]) -> List[str]:
     return list(dict.fromkeys(out))
 
 
+def live_load_ops(members: List[str], others: List[str]) -> List[tuple]:
+    """the load operations of the live search: one representative per effect class (clear everything; pick a member,
+    replacing / merging; pick a member and switch the first condition symbol on / off in the same file)"""
+    m = members
+    ops = [("load", "", True), ("load", f"CONFIG_{m[-1]}=y\n", True), ("load", f"CONFIG_{m[-1]}=y\n", False)]
+    if others:
+        ops.append(("load", f"CONFIG_{m[-1]}=y\nCONFIG_{others[0]}=y\n", True))
+        ops.append(("load", f"# CONFIG_{others[0]} is not set\nCONFIG_{m[-1]}=y\n", False))
+    return ops
+
+
+# --------------------------------------------------------------------------------------------------
+# how a live instance is evaluated between two operations
+# --------------------------------------------------------------------------------------------------
+def read_values(inst) -> None:
+    for s in inst.k.unique_defined_syms:
+        s.str_value
+
+
+def read_full(inst) -> None:
+    inst.obs()
+    inst.choice_obs()
+
+
+def read_choices(inst) -> None:
+    inst.choice_obs()
+
+
+def read_shown(inst) -> None:
+    """what a menu front end touches: the prompt condition of every node, and value / assignable values (selection) of
+    the items whose prompt is visible"""
+    c = impl.core()
+    for node in inst.k.node_iter():
+        if not (node.prompt and c.expr_value(node.prompt[1])):
+            continue
+        it = node.item
+        if isinstance(it, c.Symbol):
+            it.str_value
+            it.assignable
+        elif isinstance(it, c.Choice):
+            it.visibility
+            it.selection
+
+
+def read_outputs(inst) -> None:
+    outputs_members(inst)
+
+
+READS = {"values": read_values, "full": read_full, "shown": read_shown, "choices": read_choices, "outputs": read_outputs}
+
+
+def reads_of(tier: str) -> Tuple[str, ...]:
+    return ("values", "full") if tier == "quick" else ("values", "full", "shown", "choices", "outputs")
+
+
+def point_sets(n: int, tier: str) -> List[Tuple[int, ...]]:
+    """subsets of the evaluation points 0..n-1 (point i = just before operation i; 0 = the initial configuration; n =
+    after the last operation, used by the live search only).  quick: every single point and all of them;
+    thorough: every non-empty subset"""
+    if tier == "quick":
+        return list(dict.fromkeys([(i,) for i in range(n)] + ([tuple(range(n))] if n else [])))
+    out = []
+    for k in range(1, n + 1):
+        out.extend(itertools.combinations(range(n), k))
+    return out
+
+
 def items(tier: str, seed: int):
     depth = 3 if tier == "quick" else 4
-    return [{"family": f, "files": kgen.render(p), "prog": p, "depth": depth} for f, p in programs(tier)]
+    out = []
+    for f, p in programs(tier):
+        files = kgen.render(p)
+        out.append({"family": f, "files": files, "prog": p, "depth": depth, "phase": "fresh", "reads": reads_of(tier), "tier": tier})
+        for rk in reads_of(tier):
+            out.append({"family": f, "files": files, "prog": p, "depth": depth, "phase": "live", "reads": (rk,), "tier": tier})
+    return out
 
 
-def op_menu(model: refsem.Model) -> List[tuple]:
+def op_menu(model: refsem.Model, live: bool = False) -> List[tuple]:
     ops: List[tuple] = []
     members = [m for ci in model.choices for m in ci.members]
     others = [n for n in model.order if n not in members and model.syms[n].type == "bool" and any(d.prompt is not None for d in model.syms[n].defs)]
@@ -133,9 +326,12 @@ def op_menu(model: refsem.Model) -> List[tuple]:
     if others:
         ops.append(("reset", others[0]))
     if members:
-        for t in load_files(model.choices[0].members, others):
-            ops.append(("load", t, True))
-            ops.append(("load", t, False))
+        if live:
+            ops.extend(live_load_ops(model.choices[0].members, others))
+        else:
+            for t in load_files(model.choices[0].members, others):
+                ops.append(("load", t, True))
+                ops.append(("load", t, False))
     return ops
 
 
@@ -161,17 +357,50 @@ def outputs_members(inst) -> Dict[str, set]:
     return {"header": in_hdr, "cmake": in_cm, "json": in_js, "sdkconfig": in_cfg}
 
 
-def explore_item(item, r: common.Result, only_history=None):
+def replay_live(files, h, rk: str, points) -> "impl.Inst":
+    """the history on ONE instance that is evaluated (READS kind rk) just before every operation whose index is in `points`"""
+    inst = impl.Inst(files)
+    rd = READS[rk]
+    for i, op in enumerate(h):
+        if i in points:
+            try:
+                rd(inst)
+            except Exception as e:  # noqa: BLE001 -- evaluating the configuration goes through public entry points only
+                raise impl.OpRaised(i, ("eval", rk), e) from e
+        try:
+            impl.apply_op(inst, op)
+        except Exception as e:  # noqa: BLE001
+            raise impl.OpRaised(i, op, e) from e
+    if len(h) in points:
+        try:
+            rd(inst)
+        except Exception as e:  # noqa: BLE001
+            raise impl.OpRaised(len(h), ("eval", rk), e) from e
+    return inst
+
+
+def memo_key(k) -> tuple:
+    """everything an instance carries: user values / selections and the content of every memo cell"""
+    no_sel = impl.core()._NO_CACHED_SELECTION
+
+    def seln(x):
+        return x if (x is None or x is no_sel) else x.name
+
+    return (
+        tuple((s._user_value, s._cached_str_val, s._cached_bool_val, s._cached_vis, s._cached_assignable, bool(s._write_to_conf)) for s in k.unique_defined_syms),
+        tuple(
+            (seln(c._user_selection), getattr(c, "_user_value", None), c._cached_vis, c._cached_assignable, seln(c._cached_selection))
+            for c in k.unique_choices
+        ),
+    )
+
+
+def explore_item(item, r: common.Result, only_history=None, only_reads=None):
     files, prog, fam = item["files"], item["prog"], item["family"]
+    phase = item.get("phase", "fresh")
+    rkinds = tuple(item.get("reads", ()))
     model = refsem.build(prog)
     ptext = files["Kconfig"]
-    ops = op_menu(model)
-
-    def build(h):
-        return impl.replay_ops(files, h)
-
-    def enabled(h, st):
-        return ops
 
     def canon(st):
         k = st.k
@@ -180,30 +409,44 @@ def explore_item(item, r: common.Result, only_history=None):
             tuple(c._user_selection.name if c._user_selection is not None else None for c in k.unique_choices),
         )
 
-    def case_of(h):
-        return {"family": fam, "program": ptext, "files": files, "history": [list(o) for o in h], "depth": item["depth"]}
+    def case_of(h, reads=None):
+        c = {"family": fam, "program": ptext, "files": files, "history": [list(o) for o in h], "depth": item["depth"]}
+        if reads is not None:
+            c["reads"] = {"kind": reads[0], "points": list(reads[1])}
+        return c
 
-    def check(h, st):
-        check_on(h, st, "fresh")
-        if h:
-            # the same history on one live instance that is READ after every operation (as a front end does): the
-            # invariant must hold there too (stale memoised selections / member values)
-            live = impl.Inst(files)
-            try:
-                for op in h:
-                    impl.apply_op(live, op)
-                    live.obs()
-                    live.choice_obs()
-            except Exception:  # noqa: BLE001 -- reported by the fresh path's on_raise
-                return
-            check_on(h, live, "read_after_every_op")
-
-    def check_on(h, st, mode):
-        r.evals += 1
+    def ref_eval(h):
         ref = refsem.RefState(model)
         for op in h:
             ref.apply(op)
-        ev = ref.eval()
+        return ref, ref.eval()
+
+    def raised(h, e, reads=None):
+        r.violation({"kind": "exception", "exc": e.exc_type, "site": e.site, "op": e.op[0]}, f"[{fam}] {fmt(h)}: {e}", case_of(h, reads))
+
+    def check_fresh(h, st):
+        rv = ref_eval(h)
+        check_on(h, st, "fresh", rv, None)
+        # the first history reaching this state, on one live instance evaluated at a subset of the points
+        for rk in rkinds:
+            for pts in point_sets(len(h), item.get("tier", "thorough")):
+                check_live_variant(h, rk, pts, rv)
+
+    def check_live_variant(h, rk, pts, rv=None):
+        try:
+            live = replay_live(files, h, rk, pts)
+        except impl.OpRaised as e:
+            if e.op[0] == "eval":  # an operation that raises is reported by the fresh path
+                raised(h, e, (rk, pts))
+            return
+        r.count("live_subset_replays")
+        check_on(h, live, "live:" + rk, rv or ref_eval(h), (rk, pts))
+
+    def check_on(h, st, mode, rv, reads):
+        r.evals += 1
+        ref, ev = rv
+        case = case_of(h, reads)
+        where = fmt(h) if reads is None else f"{fmt(h)} [one instance, {reads[0]} evaluated before ops {list(reads[1])}]"
         k = st.k
         vals = st.values()
         nontrivial = False
@@ -213,7 +456,7 @@ def explore_item(item, r: common.Result, only_history=None):
             members = ci.members
             impl_members = [s.name for s in ch.syms]
             if impl_members != members:
-                r.violation({"kind": "membership", "family": fam}, f"[{fam}] members {impl_members} vs reference {members}", case_of(h))
+                r.violation({"kind": "membership", "family": fam}, f"[{fam}] members {impl_members} vs reference {members}", case)
                 continue
             ys = [m for m in members if vals[m] == "y"]
             cvis = ch.visibility
@@ -225,21 +468,21 @@ def explore_item(item, r: common.Result, only_history=None):
                 if len(ys) != 1:
                     r.violation(
                         {"kind": "not_exactly_one", "family": fam, "count": len(ys), "mode": mode},
-                        f"[{fam}] after {fmt(h)}: visible choice with visible members {mvis} has members at y: {ys}",
-                        case_of(h),
+                        f"[{fam}] after {where}: visible choice with visible members {mvis} has members at y: {ys}",
+                        case,
                     )
             if not cvis and ys:
-                r.violation({"kind": "invisible_choice_has_y", "family": fam, "mode": mode}, f"[{fam}] after {fmt(h)}: invisible choice has {ys} at y", case_of(h))
+                r.violation({"kind": "invisible_choice_has_y", "family": fam, "mode": mode}, f"[{fam}] after {where}: invisible choice has {ys} at y", case)
             if cvis != ev.choice_vis(ci.idx):
-                r.violation({"kind": "choice_visibility", "family": fam}, f"[{fam}] after {fmt(h)}: choice visibility {cvis}, reference {ev.choice_vis(ci.idx)}", case_of(h))
+                r.violation({"kind": "choice_visibility", "family": fam, "mode": mode}, f"[{fam}] after {where}: choice visibility {cvis}, reference {ev.choice_vis(ci.idx)}", case)
             sel = ch.selection
             seln = sel.name if sel is not None else None
             if seln != exp_sel or ys != ([exp_sel] if exp_sel else []):
                 why = "pick" if ci.idx in ref.picks else "default"
                 r.violation(
                     {"kind": "wrong_member", "family": fam, "expected_from": why, "last_op": h[-1][0] if h else "init", "mode": mode},
-                    f"[{fam}] after {fmt(h)}: selection {seln} / members at y {ys}, documented rule gives {exp_sel} (pick={ref.picks.get(ci.idx)})",
-                    case_of(h),
+                    f"[{fam}] after {where}: selection {seln} / members at y {ys}, documented rule gives {exp_sel} (pick={ref.picks.get(ci.idx)})",
+                    case,
                 )
             if mode != "fresh":
                 continue  # the generators read through the same properties; their agreement is checked on the fresh path
@@ -250,29 +493,60 @@ def explore_item(item, r: common.Result, only_history=None):
                 if got != ys:
                     r.violation(
                         {"kind": "output_disagrees", "format": fmt_name, "family": fam, "mode": mode},
-                        f"[{fam}] after {fmt(h)}: {fmt_name} defines members {got}, values say {ys}",
-                        case_of(h),
+                        f"[{fam}] after {where}: {fmt_name} defines members {got}, values say {ys}",
+                        case,
                     )
         if nontrivial and mode == "fresh":
             r.outcome((ptext, canon(st)))
 
-    def on_raise(h, e):
-        if not isinstance(e, impl.OpRaised):
-            raise e
-        r.violation({"kind": "exception", "exc": e.exc_type, "site": e.site, "op": e.op[0]}, f"[{fam}] {fmt(h)}: {e}", case_of(h))
-
     if only_history is not None:
         h = tuple(tuple(o) for o in only_history)
+        if only_reads is not None:
+            check_live_variant(h, only_reads["kind"], tuple(only_reads["points"]))
+            return None
         try:
-            check(h, build(h))
+            check_fresh(h, impl.replay_ops(files, h))
         except impl.OpRaised as e:
-            r.violation({"kind": "exception", "exc": e.exc_type, "site": e.site, "op": e.op[0]}, f"[{fam}] {fmt(h)}: {e}", case_of(h))
+            raised(h, e)
         return None
-    # the key (all user values + all user selections) determines every value the oracle reads (no default-marked loads
-    # in this alphabet, hence no injected defaults), so revisited states need not be re-checked
-    st = explore.bfs(build, enabled, canon, check, item["depth"], on_raise=on_raise, check_revisits=False)
-    r.states += st.states
-    r.transitions += st.transitions
+
+    if phase == "fresh":
+        # the hidden families are about showing / hiding; the load-file orders are exercised by the other families
+        ops = op_menu(model, live=fam.startswith("hidden_"))
+
+        def on_raise(h, e):
+            if not isinstance(e, impl.OpRaised):
+                raise e
+            raised(h, e)
+
+        # the key (all user values + all user selections) determines every value the oracle reads on a FRESH instance (no
+        # default-marked loads in this alphabet, hence no injected defaults), so revisited states need not be re-checked
+        st = explore.bfs(lambda h: impl.replay_ops(files, h), lambda h, s: ops, canon, check_fresh, item["depth"], on_raise=on_raise, check_revisits=False)
+        r.states += st.states
+        r.transitions += st.transitions
+        return st
+
+    # live search: evaluated before the first and after every operation; merged on the complete instance state (taken
+    # right after an evaluation, so in a correct implementation it is a function of the user state)
+    rk = rkinds[0]
+    ops = op_menu(model, live=True)
+
+    def build_live(h):
+        return replay_live(files, h, rk, range(len(h) + 1))
+
+    def check_live(h, st):
+        check_on(h, st, "live:" + rk, ref_eval(h), (rk, tuple(range(len(h) + 1))))
+
+    def on_raise_live(h, e):
+        if not isinstance(e, impl.OpRaised):
+            raise e
+        if e.op[0] == "eval":
+            raised(h, e, (rk, tuple(range(len(h) + 1))))
+
+    st = explore.bfs(build_live, lambda h, s: ops, lambda s: memo_key(s.k), check_live, item["depth"], on_raise=on_raise_live, check_revisits=False)
+    r.count("live_states", st.states)
+    r.count("live_transitions", st.transitions)
+    r.count("live_states_" + rk, st.states)
     return st
 
 
@@ -282,9 +556,10 @@ def fmt(h) -> str:
 
 def run_item(item) -> common.Result:
     r = common.Result()
-    r.programs = 1
+    r.programs = 1 if item.get("phase", "fresh") == "fresh" else 0
     st = explore_item(item, r)
-    r.sample = {"family": item["family"], "program": item["files"]["Kconfig"], "states": st.states, "transitions": st.transitions, "max_depth": st.max_depth}
+    r.sample = {"family": item["family"], "phase": item.get("phase"), "reads": list(item.get("reads", ())), "program": item["files"]["Kconfig"],
+                "states": st.states, "transitions": st.transitions, "max_depth": st.max_depth}
     return r
 
 
@@ -293,6 +568,7 @@ def replay(case) -> List[dict]:
         for f, p in programs(tier):
             if f == case["family"] and kgen.render(p)["Kconfig"] == case["program"]:
                 r = common.Result()
-                explore_item({"family": f, "files": case["files"], "prog": p, "depth": case["depth"]}, r, only_history=case["history"])
+                item = {"family": f, "files": case["files"], "prog": p, "depth": case["depth"], "phase": "fresh", "reads": reads_of("thorough")}
+                explore_item(item, r, only_history=case["history"], only_reads=case.get("reads"))
                 return r.viols
     raise SystemExit("replay: program not found")
